@@ -49,6 +49,11 @@ func cliScript(kind, in string) string {
 		return "add_key(nf, 5)\n"
 	case "nilField":
 		return "add_key(nf, nil)\nadd_key(keep, 1)\n"
+	case "noFields":
+		if isLP(in) {
+			return "drop_key(f1)\ndrop_key(f2)\ndrop_key(ts)\ndrop_key(message)\n"
+		}
+		return "drop_key(message)\n"
 	case "crlfField":
 		return "x = 1\r\nadd_key(nf, \"\"\"first\r\nsecond\r\n\"\"\")\r\n"
 	case "toTag":
